@@ -68,6 +68,8 @@ Inductive shape :=
 Record tconfig := mkTc {
   tc_cry    : list (N * (bool * Z));     (* crypto drivers: type id, (enabled, enable height) *)
   tc_sig    : N -> option (Z * bool);    (* signed payload -> raw sign type, verifies when loaded *)
+  tc_fok    : N -> bool;                 (* signed payload -> a sender address can be derived (Transaction.fromAddr,
+                                            909acb0: address id of the sign type registered, driver converts the key) *)
   tc_chain  : Z;                         (* cfg.GetChainID() *)
   tc_strict : Z;                         (* ForkTxChainIDStrict *)
   tc_bcheck : Z;                         (* ForkBlockCheck *)
@@ -98,7 +100,7 @@ Definition msign (tc : tconfig) (h : Z) (m : mtx) : bool :=
   | None => false
   | Some k => match tc_sig tc k with
               | None => false
-              | Some (ty, okv) => load_ok tc (crypto_id ty) h && okv
+              | Some (ty, okv) => tc_fok tc k && (load_ok tc (crypto_id ty) h && okv)
               end
   end.
 
